@@ -30,7 +30,7 @@ RULE = ("random stacks (depth<=4) of pass-through / item-transforming / ctx-reco
 ASSUMPTIONS = [
     "an index beyond the last sample (len, len+3) must raise something instead of delivering a sample; indices below -len and duplicated members of a fused group in one mode are not driven",
     "for stacks declaring jointly loaded items only items implemented on the outermost wrapper are requested (constructor rejects the rest)",
-    "TorchWrapper is driven over torch datasets that return tuples (multi-item modes)",
+    "TorchWrapper is driven over torch datasets whose samples are tuples (also 1-tuples, e.g. TensorDataset(x)); datasets returning bare samples are not driven",
     "extra separate loads next to a joint load are tolerated (counted in the evidence); exactly one joint load per fully present group is required",
 ]
 MONITORS = ["samples_compared", "ctx_checks", "index_forms_checked", "fused_groups_checked", "helper_checks", "loader_log_entries"]
@@ -54,9 +54,13 @@ class Root(KDDataset):
         if not 0 <= i < self.n:
             raise IndexError(f"root {self.tag}: index {idx} out of range")
         self.log.append((item, self.tag, i, id(ctx) if ctx is not None else None))
+        seen = None
+        if item == "y":
+            # y depends on what earlier items of this sample recorded (visible only if the per-sample ctx is propagated)
+            seen = "no-ctx" if ctx is None else tuple(sorted(k for k in ctx if k != "y_idx"))
         if ctx is not None:
             ctx[f"{item}_idx"] = (self.tag, i)
-        return (item, self.tag, i)
+        return (item, self.tag, i) if seen is None else (item, self.tag, i, seen)
 
     def __len__(self):
         return self.n
@@ -154,8 +158,13 @@ class OuterOfFused(KDWrapper):
         return ("O", x), c
 
 
+_IGNORE_SEEN = [False]  # fused stacks: the order in which the loaders run (joint load first) is not the mode order -> what y "saw" is not judged
+
+
 def _strip_nonce(v):
     """token without the joint-load nonce (for value comparison), and the nonce"""
+    if _IGNORE_SEEN[0] and isinstance(v, tuple) and len(v) == 4 and v[0] == "y":
+        return v[:3], None
     if isinstance(v, tuple) and len(v) == 2 and v[0] == "O":
         inner, k = _strip_nonce(v[1])
         return ("O", inner), k
@@ -191,7 +200,7 @@ def gen_cases(run):
             if spec["n"] == 0:
                 spec["_trivial"] = True
         elif kind == "torch":
-            spec.update(n=rng.randint(1, 8), width=rng.randint(2, 4))
+            spec.update(n=rng.randint(1, 8), width=rng.choice([1, 1, 2, 3, 4]))  # width 1: samples are 1-tuples (e.g. TensorDataset(x))
         elif kind == "realfused":
             spec.update(n=rng.randint(2, 9), outer=rng.random() < 0.5, return_ctx=rng.random() < 0.5)
         yield spec
@@ -256,9 +265,9 @@ def _gen_mode(spec, ctx_keys, rng, rec_requires_x):
 
 
 # ------------------------------------------------------------------------------------------------ oracle
-def _reference(stack, mode, i, fused_group_positions):
-    """direct loader calls in mode order with one fresh ctx -> (list of expected values, ctx)"""
-    ctx = {}
+def _reference(stack, mode, i, propagate=True):
+    """direct loader calls in mode order with one fresh ctx (None if the per-sample ctx is not propagated) -> (expected values, ctx)"""
+    ctx = {} if propagate else None
     out = []
     for m in mode:
         if m == "index":
@@ -297,6 +306,9 @@ def run_case(run, spec):
         run.violation("len", f"len(ModeWrapper)={L}, len(stack)={n}")
         return
     desc = f"stack layers={spec['layers']} fused={spec['fused']}/{spec['fused_outer']} items={spec['items']} n={n} mode={mode_str!r} return_ctx={return_ctx}"
+    _IGNORE_SEEN[0] = bool(spec["fused"])
+    # the per-sample ctx is propagated to the loaders iff it is returned, requested through a ctx.<key> item, or required by a layer of the stack
+    expect_propagate = return_ctx or any(m.startswith("ctx.") for m in mode) or "ctxrec" in spec["layers"]
     alive_ctx = []  # keep returned ctx objects alive so that ids cannot be recycled
 
     def check_one(got, i_norm, call_desc, log_slice, wlog_slice):
@@ -320,7 +332,7 @@ def run_case(run, spec):
                 run.violation("tuple-layout", f"{desc}: {call_desc} returned {_s(items_part)} (type {type(items_part).__name__}), expected a tuple of {len(mode)}")
                 return False
             vals = list(items_part)
-        ref_vals, ref_ctx = _reference(ds, mode, i_norm, None)
+        ref_vals, ref_ctx = _reference(ds, mode, i_norm, expect_propagate)
         # compare position by position (tokens from the harness fused wrapper carry a fresh nonce per load)
         nonces = {}
         for k, (g, w, m) in enumerate(zip(vals, ref_vals, mode)):
@@ -359,7 +371,7 @@ def run_case(run, spec):
         # loader log: one ctx object shared by all loaders of this __getitem__
         ids = {e[3] for e in log_slice}
         run.count("loader_log_entries", len(log_slice))
-        propagate = return_ctx or any(m.startswith("ctx.") for m in mode)
+        propagate = expect_propagate
         if propagate and log_slice:
             if None in ids or len(ids) != 1:
                 run.violation("ctx-not-shared", f"{desc}: {call_desc}: loaders of one sample received ctx objects {ids}")
@@ -416,14 +428,14 @@ def run_case(run, spec):
         if not isinstance(got, list) or len(got) != len(want_idx):
             run.violation("slice", f"{desc}: ds[{sl}] returned {len(got) if hasattr(got, '__len__') else got} entries, list semantics give indices {want_idx}")
             return
-        if not _check_seq(run, desc, f"ds[{sl}]", got, want_idx, ds, mode, return_ctx, spec):
+        if not _check_seq(run, desc, f"ds[{sl}]", got, want_idx, ds, mode, return_ctx, spec, expect_propagate):
             return
     li = [int(rng.integers(-n, n)) for _ in range(int(rng.integers(0, 6)))]
     ok, got, ls, ws = get(li)
     if not ok:
         return
     run.count("index_forms_checked")
-    if not isinstance(got, list) or len(got) != len(li) or not _check_seq(run, desc, f"ds[{li}]", got, [i % n for i in li], ds, mode, return_ctx, spec):
+    if not isinstance(got, list) or len(got) != len(li) or not _check_seq(run, desc, f"ds[{li}]", got, [i % n for i in li], ds, mode, return_ctx, spec, expect_propagate):
         if isinstance(got, list) and len(got) != len(li):
             run.violation("index-list", f"{desc}: ds[{li}] returned {len(got)} entries")
         return
@@ -435,12 +447,33 @@ def run_case(run, spec):
     if len(got) != n:
         run.violation("iter", f"{desc}: iteration yields {len(got)}{'+' if len(got) > n else ''} samples for a dataset of {n}")
         return
-    if not _check_seq(run, desc, "iter", got, list(range(n)), ds, mode, return_ctx, spec):
+    if not _check_seq(run, desc, "iter", got, list(range(n)), ds, mode, return_ctx, spec, expect_propagate):
+        return
+    # ---- two passes over the same object that overlap in time are independent (zip(ds, ds), nested loops)
+    def two_passes():
+        a, b = iter(mw), iter(mw)
+        out_a, out_b = [], []
+        for _ in range(n + 1):
+            for it, out in ((a, out_a), (b, out_b)):
+                try:
+                    out.append(next(it))
+                except StopIteration:
+                    pass
+        return out_a, out_b
+    ok, (pa, pb) = call_real(run, two_passes, what=f"{desc}: two interleaved iterations")
+    if not ok:
+        return
+    run.count("index_forms_checked")
+    if len(pa) != n or len(pb) != n:
+        run.violation("iter:passes-share-state", f"{desc}: two interleaved iterations over the same object yield {len(pa)} and {len(pb)} samples instead of {n} each")
+        return
+    if not _check_seq(run, desc, "interleaved iter (1st)", pa, list(range(n)), ds, mode, return_ctx, spec, expect_propagate) or \
+            not _check_seq(run, desc, "interleaved iter (2nd)", pb, list(range(n)), ds, mode, return_ctx, spec, expect_propagate):
         return
     run.sample({"stack": spec["layers"], "fused": spec["fused"], "mode": mode_str, "return_ctx": return_ctx, "n": n, "sample0": _s(mw[0])})
 
 
-def _check_seq(run, desc, what, got, want_idx, ds, mode, return_ctx, spec):
+def _check_seq(run, desc, what, got, want_idx, ds, mode, return_ctx, spec, propagate=True):
     for g, i in zip(got, want_idx):
         run.count("samples_compared")
         items_part = g[0] if return_ctx else g
@@ -448,7 +481,7 @@ def _check_seq(run, desc, what, got, want_idx, ds, mode, return_ctx, spec):
         if vals is None or len(vals) != len(mode):
             run.violation("tuple-layout", f"{desc}: {what}: entry for index {i} is {_s(g)}")
             return False
-        ref_vals, ref_ctx = _reference(ds, mode, i, None)
+        ref_vals, ref_ctx = _reference(ds, mode, i, propagate)
         for k, (a, b) in enumerate(zip(vals, ref_vals)):
             if _strip_nonce(a)[0] != _strip_nonce(b)[0]:
                 run.violation("sequence-semantics", f"{desc}: {what}: entry for index {i}, position {k} is {_s(a)}, expected {_s(b)}")
